@@ -76,6 +76,8 @@ def run_rerender(ctx):
         programs.append("f(a)=a\n" + g.expression(rng.choice([2, 4, 6])) + rng.choice(["\n", ";"]) + "x=[1,2;3,4];x*x\n")
     programs += ["7e-x\n", "x=3;7e-x\n", "2e x\n", "1.5e-(3)\n", "10e+1\n", "3e\n", "2e--1\n", "1e5m\n", "2e-3 e\n", "10e + 1e-x 12.5e3\n", "1e\n", "1e-\n",
                  "2e-e\n", "1.5e\n", "3e-2e-1\n", "4e - 1\n", "x=1;2e-x;x e - 1\n", "12.5e3e\n", "1e1e1\n", "5 m2\n", "5m 2\n", "2x\n", "2 x\n", "x2\n", "ab\n", "a b\n"]
+    programs += ["sq(x) =\nx^2\nsq(3)\n", "sq(x) =;x^2;sq(3)\n", "x =\n1\nx\n", "x =;1;x\n", "delete\nx\n", "f(\n1)\n", "1 +;2;", "x = 2;;x * 3\n", ";x = 5\nx\n", "x = 1\nx;;\n",
+                 "clear\n;\nx\n", "[1,2\n]\n", "1 as\nkm\n", "f(a) = a;f(\n2)\n"]
     programs += ["1 +\n2", "x = \n", "[1, 2; 3]\n", "(1\n)", "1 2\n", "5 as\n", "# 1\n", "delete 3\n", "1e5m\n2e-3 e\n10e + 1e-x 12.5e3 1.\n",
                  "x=1;;;;x\n\n\n;x\n", ";\n", "", "\n\n", "[1,2\n;3,4]\n", "[1;\n2]\n", "f(a,\nb)=a\n"]
     # phase 1: tokens of the originals (implementation and model agree or C04 reports it)
@@ -151,6 +153,20 @@ def separator_choice_on_binary(ctx, rng, count):
                 rep.violation("file mode: newline-separated and `;`-separated statements give different outputs for %r" % lines,
                               case="front-sep " + repr(lines), impl=[o[1] for o in outs], stream="separators-binary",
                               oracle="same results and diagnostic kinds expected, only positions may differ")
+    # blank choice through the real binary at several tab sizes (tab-only blanks between word-like tokens)
+    bad2 = m = 0
+    for prog in ["delete\tw", "x\t=\t1500\tm\tas\tkm\nx", "f(a)\t=\ta\tdot\ta\nf([1,2])", "1\t2", "x\t=\t3\nx\tas\tm", "clear\tx"]:
+        base = front.run_binary(ctx, dict(id="b", tab=4, file=None, expr=prog.replace("\t", " "), stdin=None))
+        for t in (0, 1, 8, 255):
+            o = front.run_binary(ctx, dict(id="b", tab=t, file=None, expr=prog, stdin=None))
+            m += 1
+            rep.evaluations += 1
+            if norm(o[1]) != norm(base[1]):
+                bad2 += 1
+                if bad2 <= 3:
+                    rep.violation("a tab between tokens (tab size %d) changes the outcome of %r" % (t, prog), case="front-blank " + repr((t, prog)),
+                                  impl=[base[1], o[1]], stream="blanks-binary", oracle="tabs and spaces between tokens are interchangeable; the tab size affects columns only")
+    rep.oblige("blanks-binary: tabs vs spaces between tokens at tab sizes 0, 1, 8, 255 through the real binary (%d runs)" % m, bad2 == 0, "%d differ" % bad2)
     rep.oblige("separators-binary: %d programs (half with one malformed statement) through the real binary with newline / `;` / ` ;\\n`" % n, bad == 0, "%d differ" % bad)
 
 
@@ -175,10 +191,14 @@ class BodyGen:
             return self.rng.choice(["1", "2.5", "0", "10", "1e3", "0.001", "12.75", "1e21", "1e-7", "170", "1e-17", "3e-20", "2e-16", "2.3e-16",
                                     "4.9e-324", "1e-320", "1e-200", "1e300", "0.1", "9007199254740993"])
         if r < 0.6:
-            return self.rng.choice(["a", "b", "u", "v", "x1", "pi", "e", "i", "dotx", "crossy", "e2", "m1", "_t"])
+            return self.rng.choice(["a", "p", "u", "v", "x1", "pi", "e", "i", "dotx", "crossy", "e2", "m1", "_t", "v_", "_v", "t°", "°k", "a_b", "__"])
         if r < 0.8:
             return "%s %s" % (self.rng.choice(["5", "2.5", "0", "1e3"]), self.rng.choice(ALL_UNIT_SYMS))
-        return self.rng.choice(["[1, 2, 3]", "[a, b]", "[1; 2]", "[1, 2; 3, 4]", "[a + 1, 2; b, u dot v]", "[7]"])
+        if r < 0.9:
+            return self.rng.choice(["[1, 2, 3]", "[a, p]", "[1; 2]", "[1, 2; 3, 4]", "[a + 1, 2; p, u dot v]", "[7]", "[a/2, π]", "[ϕ; a × p]", "[5 µm, 1; 1000, √a]",
+                                    "[⌈a⌉; 10 °C]", "[π, 10000; 1, ϕ]", "[a • p, 1, 2 ÷ 3]" if False else "[a • p, 1, 2]"])
+        rows, cols = self.rng.choice([(1, 1), (1, 2), (2, 1), (2, 2), (3, 2), (2, 3)])
+        return "[" + "; ".join(", ".join(self.expr(1) for _ in range(cols)) for _ in range(rows)) + "]"
 
     def expr(self, d):
         r = self.rng.random()
@@ -197,25 +217,37 @@ class BodyGen:
             return o + self.expr(d - 1) + c
         if r < 0.9:
             n = self.rng.randrange(0, 4)
-            return self.rng.choice(["g", "sin", "a", "(a)"]) + "(" + ", ".join(self.expr(d - 1) for _ in range(n)) + ")"
+            return self.rng.choice(["gg", "sin", "a", "(a)"]) + "(" + ", ".join(self.expr(d - 1) for _ in range(n)) + ")"
         return "(" + self.expr(d - 1) + ") as " + self.rng.choice(ALL_UNIT_SYMS)
+
+
+FIXED_BODIES = ["u dot v", "u cross v", "u • v", "u × v", "2 dot x", "a dot p cross u", "5 µm + a", "5 μm", "3 µg", "a as km", "a!", "-a!", "√a^2", "(a)",
+              "|a|", "⌈a⌉", "⌊a⌋", "[a, p; 1, 2]", "gg()", "gg(a)", "gg(a, p, 1)", "a - -p", "a--p", "1e3", "2.5e-3 kg", "a^p^2", "(a+p)*u", "a+p*u",
+              "a % p", "a / p / u", "[1, 2, 3] cross [a, p, 1]", "[a; p] dot [1; 2]", "gg(a)(p)", "10 °C as °F", "a as °K", "1 Kib + 2 KiB",
+              "i", "e2 + e", "a dot2", "a (p)", "[a + p, (a)!; |a|, ⌈p⌉]", "1e21 + 1e-7", "[a/2, π]", "[ϕ; a × p]", "[π, 10000; 1, ϕ]", "[5 µm, 1; 1000, √a]", "v_ dot p", "t° cross a"]
+
+
+def listing_defs(rng, quick):
+    bg = BodyGen(rng)
+    bodies = list(FIXED_BODIES)
+    for _ in range(500 if quick else 10000):
+        bodies.append(bg.expr(rng.choice([1, 2, 3, 4, 5])))
+    params = ["a, p, u, v", "a, 0", "1, p", "a", "", "2.5, a, p"]
+    defs = []
+    for k, body in enumerate(bodies):
+        ps = "a, p, u, v" if k < len(FIXED_BODIES) else rng.choice(params)
+        defs.append((ps, body))
+    return defs
+
+
+def listing_cases(rng, quick):
+    return [gen.hist_case("l%d" % k, ["lf(%s) = %s\nlf\n" % (ps, body)]) for k, (ps, body) in enumerate(listing_defs(rng, quick))]
 
 
 def run_listing(ctx):
     from . import judges
     rep, rng, quick = ctx["rep"], ctx["rng"], ctx["quick"]
-    bg = BodyGen(rng)
-    bodies = ["u dot v", "u cross v", "u • v", "u × v", "2 dot x", "a dot b cross u", "5 µm + a", "5 μm", "3 µg", "a as km", "a!", "-a!", "√a^2", "(a)",
-              "|a|", "⌈a⌉", "⌊a⌋", "[a, b; 1, 2]", "g()", "g(a)", "g(a, b, 1)", "a - -b", "a--b", "1e3", "2.5e-3 kg", "a^b^2", "(a+b)*u", "a+b*u",
-              "a % b", "a / b / u", "[1, 2, 3] cross [a, b, 1]", "[a; b] dot [1; 2]", "g(a)(b)", "10 °C as °F", "a as °K", "1 Kib + 2 KiB",
-              "i", "e2 + e", "a dot2", "a (b)", "[a + b, (a)!; |a|, ⌈b⌉]", "1e21 + 1e-7"]
-    for _ in range(500 if quick else 10000):
-        bodies.append(bg.expr(rng.choice([1, 2, 3, 4, 5])))
-    params = ["a, b, u, v", "a, 0", "1, b", "a", "", "2.5, a, b"]
-    defs = []
-    for k, body in enumerate(bodies):
-        ps = "a, b, u, v" if k < 42 else rng.choice(params)
-        defs.append((ps, body))
+    defs = listing_defs(rng, quick)
     # phase 1: define and list (text compared with the model's printer)
     P = props.proj_values(with_text=True, with_stmt=True)
     cases = [gen.hist_case("l%d" % k, ["lf(%s) = %s\nlf\n" % (ps, body)]) for k, (ps, body) in enumerate(defs)]
@@ -262,8 +294,10 @@ def run_listing(ctx):
     # redefinitions (other parameter names, literals) and tiny / huge literals: the listing shows what was written last
     redef = ["lf(x) = x + 1\nlf(y) = y * 2\nlf\nlf(3)\n", "lf(0, p) = p\nlf(0, q) = q + 1\nlf\n", "lf(n) = n\nlf(k) = k * lf(k - 1)\nlf(0) = 1\nlf\n",
              "lf(a) = a + 1e-17\nlf\n", "lf(a) = a * 3e-20 km\nlf\n", "lf(a) = [2e-16, a]\nlf\n", "lf(1e-20) = 1\nlf\n", "lf(a) = a / 1e-17\nlf\nlf(1)\n",
-             "lf(a) = a + 4.9e-324\nlf\n", "lf(a, a) = a\nlf\n", "lf(x) = x\nww = lf\nww(y) = y + 1\nww\nlf\n"]
+             "lf(a) = a + 4.9e-324\nlf\n", "lf(a, a) = a\nlf\n", "lf(x) = x\nww = lf\nww(y) = y + 1\nww\nlf\n",
+             "lf(a) = a + 1\nlf(a, q) = a * q\nww = lf\ndelete ww(a)\nlf\nww\n", "lf(n) = n * 2\nlf(0) = [1, 2] dot [3, 4]\nww = lf\ndelete lf(0)\nww\nlf\n",
+             "lf(v_, w) = v_ dot w\nlf\n", "lf(w, _v) = w cross _v\nlf\n", "lf(t°) = t° cross t°\nlf\n"]
     judges.do_stream(ctx, "redefinitions", (gen.hist_case("q%d" % k, [t]) for k, t in enumerate(redef)), P, monitors={"print_mismatch"})
     # multi-signature listings: one entry per signature, in order
-    multi = ["mf(a) = a\nmf(0) = 1\nmf(a, b) = a + b\nmf\n", "mf(0) = 1\nmf(a) = a dot a\nmf(a) = 2\nmf\n", "mf(a) = [1, 2; 3, 4]\nmf(b, 1) = b\nmf\n"]
+    multi = ["mf(a) = a\nmf(0) = 1\nmf(a, p) = a + p\nmf\n", "mf(0) = 1\nmf(a) = a dot a\nmf(a) = 2\nmf\n", "mf(a) = [1, 2; 3, 4]\nmf(p, 1) = p\nmf\n"]
     judges.do_stream(ctx, "multi-signature", (gen.hist_case("m%d" % k, [t]) for k, t in enumerate(multi)), P)
